@@ -22,6 +22,7 @@ func checkC13(c *Ctx) {
 	p := c.P
 	checkC13BatchError(c)
 	checkC13AssocDistinct(c)
+	checkC13RollbackOnError(c)
 	hooks := hookInterfaces(p)
 	execs, regs := executorSet(p)
 
